@@ -751,9 +751,10 @@ func c04TV(d *vCtx) error {
 		for b := 0; b < 256; b++ {
 			b2 := byte(sysRng.Intn(256))
 			data := []byte{byte(b), b2, byte(b)}
-			// every split point of the (<= 6 byte) escaped stream, destination sizes 1, 2 and large
-			for pos := 0; pos < 6; pos++ {
-				c := []int{1, 2, 4096}[(b+pos)%3]
+			// split points 1..5 of the (<= 6 byte) escaped stream (all of them over the 256 values), destination sizes 1, 2 and large
+			for k := 0; k < 3; k++ {
+				pos := 1 + (b+2*k)%5
+				c := []int{1, 2, 4096}[(b+k)%3]
 				do(&c04Plan{t: t, segs: [][]byte{data}, kind: "reader", chunks: splitAt(pos), caps: fixedCaps(c)})
 			}
 			do(&c04Plan{t: t, segs: [][]byte{data[:1], data[1:]}, useFn: true, kind: "whole"})
